@@ -43,7 +43,14 @@ func VerifC04Pages() {
 		nd.Assert(vPut(c, it) == nil, "setup-put")
 	}
 	r := vRead{forward: true}
-	r.index = nd.Choice("rd.index", 2) == 1
+	switch nd.Param("index", 2) {
+	case 0:
+		r.index = false
+	case 1:
+		r.index = true
+	default:
+		r.index = nd.Choice("rd.index", 2) == 1
+	}
 	switch nd.Choice("rd.shape", 7) {
 	case 5: // a sort-key range condition together with a Limit
 		r.hashVal, r.rangeOp, r.r1 = "a", ">=", nd.StringN("rd.r1", 1)
